@@ -130,7 +130,11 @@ void ep_norm_sim(ep_t *r, const ep_t *t, int n) {
 			fp_copy(r[i]->y, t[i]->y);
 			if (!ep_is_infty(t[i])) {
 				fp_copy(r[i]->z, a[i]);
+			} else {
+				fp_copy(r[i]->z, t[i]->z);
 			}
+			/* The result may be a separate array, take the system from the input. */
+			r[i]->coord = t[i]->coord;
 		}
 #if EP_ADD == PROJC || EP_ADD == JACOB || !defined(STRIP)
 		for (i = 0; i < n; i++) {
